@@ -34,11 +34,11 @@ ASSUMES = ["a kill leaves exactly a prefix of the issued FS mutations, the last 
            "rename is atomic (POSIX)"]
 OUTSIDE = ["power loss without fsync", "non-POSIX rename", "large payloads (multi-chunk pickles beyond those recorded)"]
 
-SRC_V1 = "def f(a, b=2):\n    # caf\u00e9 \u2713\n    return ('v1', a, b)\n"      # non-ASCII: multi-byte characters can be torn
-SRC_BIG = "def f(a, b=2):\n    return ('v1', a, b, list(range(3000)), 'x' * 70000)\n"
-SRC_V2 = "def f(a, b=2):\n    x = 1\n    return ('v2', a, b)\n"
+SRC_V1 = "LOG = []\ndef f(a, b=2):\n    # caf\u00e9 \u2713\n    LOG.append(a)\n    return ('v1', a, b)\n"      # non-ASCII: multi-byte characters can be torn
+SRC_BIG = "LOG = []\ndef f(a, b=2):\n    LOG.append(a)\n    return ('v1', a, b, list(range(3000)), 'x' * 70000)\n"
+SRC_V2 = "LOG = []\ndef f(a, b=2):\n    x = 1\n    LOG.append(a)\n    return ('v2', a, b)\n"
 WORKLOADS = ["cold", "warm", "source_change", "invalidate", "shelve", "compressed", "reduce_size", "clear"]
-RECOVERIES = ["plain", "expires", "shelve_get"]
+RECOVERIES = ["plain", "expires", "shelve_get", "never_valid"]
 
 _PLAN = {}
 
@@ -148,7 +148,9 @@ def _expected(src, a):
         ns = {}
         exec(src, ns)
         _EXP[src] = ns["f"]
-    return _EXP[src](a)
+    r = _EXP[src](a)
+    del _EXP[src].__globals__["LOG"][:]
+    return r
 
 
 def _recover(fs, recovery, args=(1, 2, 3)):
@@ -162,13 +164,20 @@ def _recover(fs, recovery, args=(1, 2, 3)):
             mem, f = _session(fs, clock, src, **_PLAN["memkw"])
             if recovery == "expires":
                 g = mem.cache(f, cache_validation_callback=expires_after(seconds=3600))
+            elif recovery == "never_valid":
+                g = mem.cache(f, cache_validation_callback=_never_valid)
             else:
                 g = mem.cache(f)
             for a in args:
+                log = f.__globals__["LOG"]
+                del log[:]
                 if recovery == "shelve_get":
                     v = g.call_and_shelve(a).get()
                 else:
                     v = g(a)
+                if recovery == "never_valid" and len(log) != 1:
+                    # the callback rejects every entry: whatever the crash left behind must not be served
+                    problems.append("f(%r): the validation callback says 'invalid' but the body ran %d times" % (a, len(log)))
                 if v != _expected(src, a):
                     problems.append("f(%r) returned %r after the crash" % (a, v))
                 # and once more: whatever the first call repaired must now be served
@@ -283,6 +292,8 @@ def obligations(tier, seed):
     for wl in WORKLOADS:
         for rec in RECOVERIES:
             if tier == "quick" and rec == "shelve_get" and wl in ("warm", "compressed", "clear"):
+                continue
+            if rec == "never_valid" and wl not in ("cold", "invalidate", "reduce_size", "source_change"):
                 continue
             obs.append({"name": "crash/%s/%s" % (wl, rec), "fn": "ob_crash", "mode": "S",
                         "params": {"workload": wl, "recovery": rec}, "timeout": 400,
